@@ -11,6 +11,8 @@
 import RdfModel.Props.C13Defs
 import RdfModel.Proofs.C13PM
 import RdfModel.Proofs.C13Useful
+import RdfModel.Proofs.C13Quirk
+import RdfModel.Proofs.C13Curie
 namespace RdfModel.C13
 open RdfModel.Prefix
 open RdfModel.Spec.RFC3986Lite (Str cColon cSlash cQuest cHash cDot resolve split)
@@ -43,9 +45,8 @@ theorem pm_table_exact (S : Sorter) (init : List Mapping) (ops : List Op) (p : P
   have htab := pm_refines_lastwrite S init ops p h
   exact ⟨fun m => by rw [← htab]; exact hinv.agree m, hinv.nodup, hinv.sorted⟩
 
-example : ∃ p, run mergeSorter [⟨[0x61], [0x68]⟩] [.add [⟨[0x62], [0x68, 0x69]⟩], .del [[0x61]]] = some p ∧
-    getMappings p = [⟨[0x62], [0x68, 0x69]⟩] := by
-  refine ⟨_, rfl, ?_⟩; decide
+example : (run mergeSorter [⟨[0x61], [0x68]⟩] [.add [⟨[0x62], [0x68, 0x69]⟩], .del [[0x61]]]).map getMappings
+    = some [⟨[0x62], [0x68, 0x69]⟩] := by decide
 
 /-- `ExpandPrefix` is the specification's lookup. -/
 theorem expand_spec (S : Sorter) (init : List Mapping) (ops : List Op) (p : PM)
@@ -61,7 +62,8 @@ theorem compact_expand (S : Sorter) (init : List Mapping) (ops : List Op) (p : P
     expand p pr = some v := by
   obtain ⟨ns, h1, h2, _⟩ := Proofs.C13.compact_spec p (Proofs.C13.run_inv S init ops p h) v pr hc
   unfold expand
-  rw [h1, h2]
+  simp only [h1]
+  exact congrArg some h2
 
 /-- Longest match: the prefix offered is mapped (most recently) to a namespace `ns` with
     `ns ++ reference = v`, and no currently mapped namespace that is a prefix of `v` is longer. -/
@@ -90,8 +92,8 @@ theorem compact_none (S : Sorter) (init : List Mapping) (ops : List Op) (p : PM)
   · intro hx m hm
     exact hx m.pfx m.expanded (by rw [← htab]; exact (hinv.agree m).mp hm)
 
-example : ∃ p pr, run mergeSorter [⟨[0x61], [0x68]⟩, ⟨[0x62], [0x68, 0x69]⟩] [] = some p ∧
-    compact p [0x68, 0x69, 0x6a] = some pr ∧ pr = ⟨[0x62], [0x6a]⟩ := ⟨_, _, rfl, by decide, rfl⟩
+example : (run mergeSorter [⟨[0x61], [0x68]⟩, ⟨[0x62], [0x68, 0x69]⟩] []).map (fun p => compact p [0x68, 0x69, 0x6a])
+    = some (some ⟨[0x62], [0x6a]⟩) := by decide
 
 /-! ## Clone -/
 
@@ -111,8 +113,8 @@ theorem clone_step_frame (S : Sorter) (st st' : List PM) (op : StoreOp) (h : sto
     (i : Nat) (hi : i < st.length) (hne : op.target ≠ some i) : st'[i]? = st[i]? :=
   Proofs.C13.store_step_other S st st' op h i hi hne
 
-example : ∃ st, storeRun mergeSorter [.new [⟨[0x61], [0x68]⟩], .clone 0, .del 0 [[0x61]]] = some st ∧
-    st.map getMappings = [[], [⟨[0x61], [0x68]⟩]] := ⟨_, rfl, by decide⟩
+example : (storeRun mergeSorter [.new [⟨[0x61], [0x68]⟩], .clone 0, .del 0 [[0x61]]]).map (·.map getMappings)
+    = some [[], [⟨[0x61], [0x68]⟩]] := by decide
 
 /-- `UsagePrefixMapper` answers exactly like the wrapped mapper and records only prefixes it returned or expanded. -/
 theorem usage_transparent (u : Usage) (p : PM) (v : Str) (pr : PrefixRef) :
@@ -160,6 +162,39 @@ theorem curie_nomatch_partial (sc : Scope) (p : PM) (v : Str) (hc : compact p v 
     expandCURIE sc p (compactCURIE sc p v) = (p.byPrefix.get []).map (· ++ v) :=
   Proofs.C13.curie_nomatch sc p v hc
 
+/-- Full statement for the written form: the string `CURIE.String()` of what `CompactCURIE` builds, read
+    back with `ParseCURIE` and expanded in the same scope, is the IRI. FALSE for the code as it is (known
+    finding C13-K2): the prefix-less default form is chosen even when the reference contains ':'. -/
+def CurieStringRoundtrip : Prop :=
+  ∀ (sc : Scope) (p : PM) (v : Str) (pr : PrefixRef), Inv p → compact p v = some pr →
+    (∀ x ∈ pr.pfx, x ≠ cColon) → pr.pfx.head? ≠ some cLBr →
+    (parseCURIE (compactCURIE sc p v).string).bind (expandCURIE sc p) = some v
+
+/-- the witness of C13-K2 in the model: default prefix "e" ↦ "h", also "a" ↦ "x"; IRI "ha:b" is written
+    "a:b", which reads back as prefix "a" and expands to "xb" -/
+theorem curie_string_witness : ¬ CurieStringRoundtrip := by
+  intro h
+  have := h ⟨false, [0x65], false⟩ (new mergeSorter [⟨[0x65], [0x68]⟩, ⟨[0x61], [0x78]⟩]) [0x68, 0x61, 0x3a, 0x62]
+    ⟨[0x65], [0x61, 0x3a, 0x62]⟩ (Proofs.C13.new_inv _ _) (by decide) (by decide) (by decide)
+  revert this
+  decide
+
+/-- The written form reads back (partial): for NCName-like prefixes (no ':', not starting with '[') the
+    round trip through `CURIE.String()` and `ParseCURIE` holds whenever the explicit-prefix form is used,
+    and for the default-prefix form when the reference contains no ':' and — outside brackets — is
+    neither empty nor itself bracketed. Exactly the complement is known finding C13-K2. -/
+theorem curie_string_roundtrip_partial (S : Sorter) (init : List Mapping) (ops : List Op) (p : PM)
+    (h : run S init ops = some p) (sc : Scope) (v : Str) (pr : PrefixRef) (hc : compact p v = some pr)
+    (hp : ∀ x ∈ pr.pfx, x ≠ cColon) (hb : pr.pfx.head? ≠ some cLBr)
+    (hd : (compactCURIE sc p v).defaultPrefix = true →
+      (∀ x ∈ pr.reference, x ≠ cColon) ∧
+      (sc.safe = false → pr.reference ≠ [] ∧ ¬ (pr.reference.head? = some cLBr ∧ pr.reference.getLast? = some cRBr))) :
+    (parseCURIE (compactCURIE sc p v).string).bind (expandCURIE sc p) = some v :=
+  Proofs.C13.curie_string_roundtrip sc p (Proofs.C13.run_inv S init ops p h) v pr hc hp hb hd
+
+example : (parseCURIE (compactCURIE ⟨true, [0x65], false⟩ (new mergeSorter [⟨[0x65], [0x68]⟩]) [0x68, 0x61]).string).bind
+    (expandCURIE ⟨true, [0x65], false⟩ (new mergeSorter [⟨[0x65], [0x68]⟩])) = some [0x68, 0x61] := by decide
+
 /-! ## BaseIRI.RelativizeIRI -/
 
 /-- Soundness with respect to the repository's own resolver (the `observe_at` of the property), by the
@@ -183,39 +218,22 @@ theorem relativize_sound_witness : ¬ RelativizeSound := by
   revert this
   decide
 
-/-- where the RFC-level soundness theorem is proved: relative bases; absolute bases that have a path (or
-    no authority) and, when the base has a fragment, references other than the empty one -/
-def SoundDomain (b r : Str) : Prop :=
-  (split b).scheme = none ∨
-  (((split b).path ≠ [] ∨ (split b).authority = none) ∧ ((split b).fragment = none ∨ r ≠ []))
-
-/-- RFC 3986 soundness (partial): on `SoundDomain`, whatever `RelativizeIRI` offers — "#f"/"?q" suffixes
-    for any base incl. relative ones, "", "./", "./?q", sibling and child paths, root-relative paths —
-    resolves under `Spec.RFC3986Lite.resolve` to exactly the IRI. Not covered: (1) the empty reference
-    for a base with a fragment, where the statement is false (`relativize_sound_witness`); (2) bases with
-    an authority and an empty path ("http://e"), where `goResolve` deviates from §5.2 for references that
-    collapse to nothing — there soundness holds with respect to `goResolve` (`relativize_checked`) and
-    is covered for RFC 3986 only by the harness oracle (`pm.spec`). -/
-theorem relativize_sound_partial (b v r : Str) (h : relativize b v = .some r) (hd : SoundDomain b r) :
-    resolve b r = v := by
-  rcases hd with hs | ⟨h1, h2⟩
-  · -- relative base: only the suffix form is offered
-    obtain ⟨_, _, hcand⟩ := Proofs.C13.relativize_checked b v r h
-    have hroot : (newBaseIRI b).root = none := by simp [newBaseIRI, hs]
-    obtain ⟨hv, hf, hr⟩ := Proofs.C13.candidate_rel_base b v r hroot hcand
-    have hnh := Proofs.C13.no_hash_of_fragmentIndex b hf
-    rcases hr with ⟨f, rfl⟩ | ⟨hq, q, rfl⟩
-    · rw [hv]; exact Proofs.C13.resolve_hash_suffix b f hnh
-    · rw [hv]; exact Proofs.C13.resolve_quest_suffix b q hnh (Proofs.C13.no_quest_of_queryIndex b hf hq)
-  · exact Proofs.C13.relativize_sound_core b v r h h1 h2
+/-- RFC 3986 soundness (partial only in that the class of known finding C13-K3 is excluded): for every
+    base — absolute or relative, with or without path — and every IRI, whatever `RelativizeIRI` offers
+    ("#f"/"?q" suffixes, "", "./", "./?q", sibling and child paths, root-relative paths) resolves under
+    `Spec.RFC3986Lite.resolve` to exactly the IRI, unless it is the empty reference offered for a base
+    that carries a fragment (there the full statement is false, `relativize_sound_witness`). For bases
+    "scheme://authority" the proof shows that the branch of `goResolve` deviating from §5.2 is never the
+    one that lets a candidate through. -/
+theorem relativize_sound_partial (b v r : Str) (h : relativize b v = .some r)
+    (hk3 : (split b).fragment = none ∨ r ≠ []) : resolve b r = v :=
+  Proofs.C13.relativize_sound_all b v r h hk3
 
 example : relativize [0x73, 0x3a, 0x2f, 0x2f, 0x68, 0x2f, 0x61, 0x2f, 0x62] [0x73, 0x3a, 0x2f, 0x2f, 0x68, 0x2f, 0x61, 0x2f] = .some [cDot, cSlash] ∧
-    SoundDomain [0x73, 0x3a, 0x2f, 0x2f, 0x68, 0x2f, 0x61, 0x2f, 0x62] [cDot, cSlash] := by
-  constructor
-  · decide
-  · right; constructor
-    · left; decide
-    · left; decide
+    (split [0x73, 0x3a, 0x2f, 0x2f, 0x68, 0x2f, 0x61, 0x2f, 0x62]).fragment = none := by decide
+
+-- authority-only base: "s://h" with "s://h/x" gives "/x" (the unrepaired code panicked here)
+example : relativize [0x73, 0x3a, 0x2f, 0x2f, 0x68] [0x73, 0x3a, 0x2f, 0x2f, 0x68, 0x2f, 0x78] = .some [cSlash, 0x78] := by decide
 
 /-- `RelativizeIRI` does not panic when the index bookkeeping is sane (`IndicesOK`, decidable; holds for
     every base the harness generates, checked there, and for every base of `BaseShape`). The unrepaired
